@@ -5,7 +5,9 @@ import (
 	"syscall"
 	"unsafe"
 
+	"github.com/bilibili/smgo/sm3"
 	"github.com/bilibili/smgo/sm4"
+	"github.com/bilibili/smgo/utils"
 )
 
 // Guarded buffers: every buffer is placed in its own mapping so that it ENDS exactly at a
@@ -174,6 +176,41 @@ func init() {
 		h, tag, data := g.put(c.bytes("h"), place), g.put(c.bytes("tag"), place), g.put(c.bytes("data"), place)
 		sm4.VerifGHashBlocks(&h[0], &tag[0], &data[0], len(data)/16)
 		ev["out"] = cp(tag)
+	})
+	// guard.sm3 {data, splits, place, inlen}: Write (in pieces) and Sum with the data, and the slice Sum appends to,
+	// laid against an inaccessible page
+	register("guard.sm3", func(ctx *Ctx, c Cmd, ev Ev) {
+		g := &guarded{}
+		defer g.free()
+		place := c.str("place")
+		data := g.put(c.bytes("data"), place)
+		h := sm3.New()
+		pos := 0
+		for _, n := range c.ints("splits") {
+			if pos+n > len(data) {
+				n = len(data) - pos
+			}
+			h.Write(data[pos : pos+n])
+			pos += n
+		}
+		h.Write(data[pos:])
+		in := g.alloc(c.num("inlen"), "end") // no spare capacity: Sum has to grow it
+		for i := range in {
+			in[i] = byte(i)
+		}
+		out := h.Sum(in)
+		ev["out"] = cp(out)
+		one := sm3.SumSM3(data)
+		ev["oneshot"] = cp(one[:])
+		ev["data_after"] = cp(data)
+	})
+	// guard.cmp {a, b, place}: the comparison helper on guarded operands
+	register("guard.cmp", func(ctx *Ctx, c Cmd, ev Ev) {
+		g := &guarded{}
+		defer g.free()
+		a, b := g.put(c.bytes("a"), c.str("place")), g.put(c.bytes("b"), c.str("place"))
+		ev["res"] = -99
+		ev["res"] = utils.ConstantTimeCmp(a, b, len(a))
 	})
 	var _ cipher.Block
 }
